@@ -17,7 +17,7 @@ VERIF = os.path.dirname(os.path.dirname(os.path.realpath(__file__)))
 REPO = os.environ.get("KV_REPO", "/repo")
 HARNESS_DIR = os.path.join(VERIF, "harness")
 STUBS_DIR = os.path.join(VERIF, "stubs")
-EVID_DIR = os.path.join(VERIF, "evidence")
+EVID_DIR = os.environ.get("KV_EVID_DIR") or os.path.join(VERIF, "evidence")
 LOG_DIR = os.path.join(VERIF, ".kvlogs")
 KNOWN_FILE = os.path.join(VERIF, "known_findings.json")
 
@@ -620,10 +620,20 @@ def native_replay(root, h, tests, tag):
         text = open(logf, errors="replace").read()
         ran = re.search(r"test \S*%s \.\.\. (ok|FAILED)" % re.escape(t["test_name"]), text)
         panic = re.search(r"panicked at [^\n]*\n([^\n]*)", text)
+        failed = bool(ran and ran.group(1) == "FAILED")
+        msg = panic.group(1) if panic else ""
+        # a playback-infrastructure panic (the native run took another path and ran out of recorded values,
+        # or violated an assumption) is not a reproduction
+        infra = bool(re.search(r"Not enough det vals|kani::assume should always hold|concrete_playback", panic.group(0) if panic else ""))
+        want = t.get("failure", {}).get("description", "")
+        if re.match(r"C\d\d\.", want):
+            reproduced = failed and want in text
+        else:
+            reproduced = failed and not infra
         out.append({
             "test_name": t["test_name"],
             "ran": bool(ran),
-            "reproduced": bool(ran and ran.group(1) == "FAILED"),
+            "reproduced": reproduced,
             "panic": (panic.group(0)[:400] if panic else None),
             "log": logf,
             "timed_out": to,
@@ -954,7 +964,7 @@ def cmd_replay(args):
         return 2
     h = hs[0]
     root = new_root()
-    t = {"source": rp["playback_test"], "test_name": rp["test_name"]}
+    t = {"source": rp["playback_test"], "test_name": rp["test_name"], "failure": rp.get("failed_check", {})}
     out = native_replay(root, h, [t], "manual")
     r = out[0]
     log("replay of %s / %s: %s" % (rp["harness"], rp["failed_check"]["description"],
